@@ -84,6 +84,34 @@ pub fn written(case: &Case, csv: bool) -> Result<(String, String), (String, Stri
     }
 }
 
+/// what `--csv-output-dir` leaves for the user: the contents of every file written to the directory,
+/// plus the error stream
+pub fn written_dir(case: &Case) -> Result<(String, String), (String, String)> {
+    static SEQ: std::sync::atomic::AtomicU64 = std::sync::atomic::AtomicU64::new(0);
+    let dir = std::env::temp_dir().join(format!("acbverif_csvdir_{}_{}", std::process::id(), SEQ.fetch_add(1, std::sync::atomic::Ordering::Relaxed)));
+    let _ = std::fs::remove_dir_all(&dir);
+    let res = catch_unwind(AssertUnwindSafe(|| {
+        let (loader, _c, _r) = new_test_rate_loader(false);
+        let (err_h, err_buf) = WriteHandle::string_buff_write_handle();
+        let mut w = CsvWriter::new_to_output_dir(&dir.to_string_lossy().to_string()).expect("output dir");
+        let r = async_std::task::block_on(run_acb_app_to_writer(&mut w, readers(case), opening_status(case), &TxCsvParseOptions::default(), false, false, loader, err_h)).map(|_| ());
+        let mut o = String::new();
+        let mut names: Vec<std::path::PathBuf> = std::fs::read_dir(&dir).map(|d| d.flatten().map(|e| e.path()).collect()).unwrap_or_default();
+        names.sort();
+        for p in names {
+            o.push_str(&std::fs::read_to_string(&p).unwrap_or_default());
+            o.push('\n');
+        }
+        let e = err_buf.borrow().as_str().to_string();
+        (r.is_ok(), o, e)
+    }));
+    let _ = std::fs::remove_dir_all(&dir);
+    match res {
+        Ok((_ok, o, e)) => Ok((o, e)),
+        Err(p) => Err(("panic".into(), panic_text(p))),
+    }
+}
+
 /// "$1.5", "-$2", "+$3.25", "-" -> value
 pub fn parse_dollar(cell: &str) -> Option<Decimal> {
     let first = cell.lines().next().unwrap_or("").trim();
@@ -209,6 +237,7 @@ pub fn report_record(case: &Case) -> Value {
             let mut vis = Vec::new();
             let text = written(case, false);
             let csv = written(case, true);
+            let dirw = written_dir(case);
             let mut secs: Vec<(&String, &RenderTable)> = f.security_tables.iter().collect();
             secs.sort_by(|a, b| a.0.cmp(b.0));
             for (sec, t) in secs {
@@ -218,11 +247,11 @@ pub fn report_record(case: &Case) -> Value {
                         Ok((o, er)) => o.contains(&key) || er.contains(&key),
                         Err(_) => false,
                     };
-                    vis.push(json!({"sec": sec, "text": shown(&text), "csv": shown(&csv)}));
+                    vis.push(json!({"sec": sec, "text": shown(&text), "csv": shown(&csv), "dir": shown(&dirw)}));
                 }
             }
             rec["visible"] = json!(vis);
-            rec["writerPanic"] = json!(text.is_err() || csv.is_err());
+            rec["writerPanic"] = json!(text.is_err() || csv.is_err() || dirw.is_err());
         }
         (Err((st, e)), _) | (_, Err((st, e))) => {
             let st = if e.starts_with("Found non-global split") { "skipped".to_string() } else { st };
